@@ -540,6 +540,678 @@ def singleton_state_cases(ctx, CRC8, CRC9, CRC16, CRC32, CrcMasks):
             ctx.fail("singleton-state", {"component": "state", "d1": hex_str(d1), "d2": hex_str(d2)}, "CRC16.calculate depends on earlier calls", expected=out_int(first), actual=out_int(again))
 
 
+# ------------------------------------------------------------------------------------------------
+# structured algebraic inputs: the CRC is affine in the message, so for any choice of >= w "free" bit
+# positions (a contiguous window always works, x^k being invertible modulo G) the remaining bits can be
+# completed to a message whose remainder is a CHOSEN value.  The solver below works on Python ints; every
+# message it constructs is re-checked with the list-based long division `poly_rem` before it is used, and
+# the oracle's expectation is always computed by `poly_rem` / `rem_int`, never taken from the solver.
+_POW = {}
+
+
+def _pow_table(w, upto):
+    """x^(k+w) mod G for k = 0..upto, as ints"""
+    t = _POW.setdefault(w, [ETSI[w]])
+    g = ETSI[w] | (1 << w)
+    while len(t) <= upto:
+        v = t[-1] << 1
+        if v >> w:
+            v ^= g
+        t.append(v)
+    return t
+
+
+def _fast_rem(bits, w):
+    t = _pow_table(w, max(len(bits), 1))
+    n = len(bits)
+    r = 0
+    for i, b in enumerate(bits):
+        if b:
+            r ^= t[n - 1 - i]
+    return r
+
+
+def gf2_solve(cols, target):
+    """a 0/1 list x with xor of cols[i] over x[i] = 1 equal to target, or None"""
+    basis = {}
+    for i, c in enumerate(cols):
+        v, m = c, 1 << i
+        while v:
+            hb = v.bit_length() - 1
+            if hb in basis:
+                v ^= basis[hb][0]
+                m ^= basis[hb][1]
+            else:
+                basis[hb] = (v, m)
+                break
+    v, m = target, 0
+    while v:
+        hb = v.bit_length() - 1
+        if hb not in basis:
+            return None
+        v ^= basis[hb][0]
+        m ^= basis[hb][1]
+    return [(m >> i) & 1 for i in range(len(cols))]
+
+
+def force_rem(bits, free, w, target):
+    """bits (0/1 list) with the positions in `free` re-chosen such that message(x)*x^w mod G == target;
+    None if the free positions do not span the difference.  Verified with the reference division."""
+    n = len(bits)
+    t = _pow_table(w, n)
+    delta = _fast_rem(bits, w) ^ target
+    x = gf2_solve([t[n - 1 - p] for p in free], delta)
+    if x is None:
+        return None
+    out = list(bits)
+    for p, xi in zip(free, x):
+        out[p] ^= xi
+    if rem_int(out, w) != target:  # the construction itself went wrong: never use such an input
+        raise AssertionError("harness: force_rem produced a message with another remainder")
+    return out
+
+
+def free_positions(rng, n, w, where=None):
+    """>= w positions out of 0..n-1 (n >= w): the last w, the first w, a random window, or w + 6 scattered"""
+    where = where or rng.choice(["tail", "tail", "head", "window", "window", "scattered"])
+    if where == "tail":
+        return list(range(n - w, n)), where
+    if where == "head":
+        return list(range(w)), where
+    if where == "window" or n < w + 6:
+        s = rng.randint(0, n - w)
+        return list(range(s, s + w)), "window"
+    return sorted(rng.sample(range(n), min(n, w + 6))), where
+
+
+def special_values(w, rng, extra=()):
+    """the check-sum values a careless special case is most likely to single out"""
+    full = (1 << w) - 1
+    vals = [0, full, 1, 1 << (w - 1), full >> 1, full ^ 1, 0x55555555 & full, 0xAAAAAAAA & full]
+    vals += [1 << k for k in range(w)]
+    vals += [full ^ (1 << k) for k in rng.sample(range(w), min(w, 4))]
+    if w > 8:
+        vals += [rng.randrange(1, 256), rng.randrange(1, 256) << (w - 8), 0xFF, full ^ 0xFF]
+    if w > 16:
+        vals += [rng.randrange(1, 1 << 16), rng.randrange(1, 1 << 24), 0x7FFFFFFF & full, 0xFFFF, 0xFFFF0000 & full]
+    vals += [v & full for v in extra]
+    seen, out = set(), []
+    for v in vals:
+        if v not in seen:
+            seen.add(v)
+            out.append(v)
+    return out
+
+
+def base_bits(rng, n):
+    kind = rng.choice(["random", "random", "random", "zeros", "ones", "sparse"])
+    if kind == "zeros":
+        return [0] * n
+    if kind == "ones":
+        return [1] * n
+    if kind == "sparse":
+        b = [0] * n
+        for _ in range(rng.randint(1, 3)):
+            if n:
+                b[rng.randrange(n)] = 1
+        return b
+    return [rng.getrandbits(1) for _ in range(n)]
+
+
+def bits_bytes(bits) -> bytes:
+    assert len(bits) % 8 == 0
+    return bytes(int("".join(str(b) for b in bits[i:i + 8]), 2) for i in range(0, len(bits), 8))
+
+
+def wbits(v, w):
+    return "".join(str((v >> (w - 1 - i)) & 1) for i in range(w))
+
+
+def pick(rng, vals, k, must=()):
+    """the first four (0, all-ones, 1, top bit) and `must` always, the rest sampled"""
+    head = vals[:4] + [v for v in dict.fromkeys(must) if v not in vals[:4]]
+    rest = [v for v in vals[4:] if v not in head]
+    return head + rng.sample(rest, min(len(rest), max(0, k - len(head))))
+
+
+def structured_engine_cases(ctx, crcmod):
+    """raw engines on messages constructed to have a chosen remainder / to drive the register through
+    chosen states in mid-message / that are multiples of the generator"""
+    rng = ctx.rng
+    enums = {7: crcmod.Crc7, 8: crcmod.Crc8, 9: crcmod.Crc9, 16: crcmod.Crc16, 32: crcmod.Crc32}
+    for w, en in enums.items():
+        name = CFG_NAMES[w]
+        fw = ref_feed_width(w)
+        full = (1 << w) - 1
+        bit_calc = call(crcmod.BitCrcCalculator, en.ETSI_DMR, False)
+        tab_calc = call(crcmod.BitCrcCalculator, en.ETSI_DMR, True)
+        if is_err(bit_calc) or is_err(tab_calc):
+            continue  # reported by engine_cases
+        pairs_b, pairs_t, pairs_v = [], [], []
+
+        def one(bits, tag, target=None):
+            ba_ = bitarray(bits)
+            arg = barg(ba_)
+            exp = "".join(str(x) for x in poly_rem(bits, w))
+            rb, rt = call(bit_calc.calculate_checksum, bitarray(ba_)), call(tab_calc.calculate_checksum, bitarray(ba_))
+            sb, st = out_bits(rb), out_bits(rt)
+            pairs_b.append((f"crc.bit {name} {arg}", sb))
+            pairs_t.append((f"crc.tab {name} 0 {arg}", st))
+            ctx.case((name, "structured", tag, arg))
+            inp = {"component": "engine", "config": name, "bits": arg, "previous": None, "class": tag}
+            if sb != exp:
+                ctx.fail("bitwise-not-remainder", inp, f"{name} bit-by-bit register differs from message(x)*x^{w} mod G ({tag})", expected=exp, actual=sb)
+            if st != exp:
+                ctx.fail("table-not-remainder", inp, f"{name} table register differs from message(x)*x^{w} mod G ({tag})", expected=exp, actual=st)
+            good = int(exp, 2) if exp else 0
+            if target is not None:
+                ctx.count(f"structured:engine:{name}:target-hit" if good == target else f"structured:engine:{name}:target-missed")
+            for v in (good, good ^ (1 << rng.randrange(w)), 0, full):
+                for mode, mt in ((bit_calc, "b"), (tab_calc, "t")):
+                    r = call(mode.verify_checksum, bitarray(ba_), v)
+                    pairs_v.append((f"crc.verify {name} {mt} {arg} {v}", out_bool(r)))
+                    ctx.case((name, "structured-verify", mt, arg, v))
+                    if r is not (v == good):
+                        ctx.fail("verify-not-exact", {"component": "verify", "config": name, "bits": arg, "value": v, "table": mt == "t", "class": tag},
+                                 f"{name}.verify_checksum does not accept exactly the remainder ({tag})", expected=(v == good), actual=str(r))
+
+        # ---- chosen remainder
+        targets = special_values(w, rng)
+        for tv in pick(rng, targets, ctx.budget(14, 60)):
+            for _ in range(ctx.budget(2, 4)):
+                n = rng.choice([w, w + 1, 2 * w, fw * rng.randint(2, 6), fw * rng.randint(2, 6) + rng.choice([-1, 1]), rng.randint(w, 4 * w + 24)])
+                n = max(n, w)
+                free, where = free_positions(rng, n, w)
+                m = force_rem(base_bits(rng, n), free, w, tv)
+                if m is None:
+                    free, where = free_positions(rng, n, w, "window")
+                    m = force_rem(base_bits(rng, n), free, w, tv)
+                one(m, f"remainder={wbits(tv, w)} free={where}", tv)
+                ctx.count(f"structured:engine:{name}:chosen-remainder")
+        # ---- multiples of the generator (remainder 0 without being zero), and generator +/- one bit
+        g = [1] + [(ETSI[w] >> (w - 1 - i)) & 1 for i in range(w)]
+        for _ in range(ctx.budget(6, 30)):
+            q = [1] + [rng.getrandbits(1) for _ in range(rng.randint(0, 20))]
+            prod = [0] * (len(q) + w)
+            for i, qi in enumerate(q):
+                if qi:
+                    for j, gj in enumerate(g):
+                        prod[i + j] ^= gj
+            lead, trail = rng.choice([0, 0, 1, fw, rng.randint(0, 12)]), rng.choice([0, 0, 1, fw, rng.randint(0, 12)])
+            one([0] * lead + prod + [0] * trail, "generator-multiple", 0)
+            ctx.count(f"structured:engine:{name}:generator-multiple")
+        one(list(g), "generator", 0)
+        one(g[1:], "generator-without-top-bit")
+        # ---- the register passes through a chosen state after a prefix (whole chunks or not), then more bits;
+        #      in particular the table index of the next chunk is 0 or the last entry
+        for _ in range(ctx.budget(28, 140)):
+            npre = rng.choice([fw * rng.randint(2, 5), fw * rng.randint(2, 5), w + rng.randint(0, 20)])
+            npre = max(npre, w)
+            state = rng.choice([0, 0, full, 1, 1 << (w - 1), rng.choice(targets)])
+            free, where = free_positions(rng, npre, w, rng.choice(["tail", "window", "head"]))
+            pre = force_rem(base_bits(rng, npre), free, w, state)
+            top = [(state >> (w - 1 - i)) & 1 for i in range(fw)]
+            kind = ["zeros", "ones", "random", "index0", "indexmax", "empty", "onezero"][_ % 7]
+            ns = rng.randint(1, 3 * fw)
+            suf = {"zeros": [0] * ns, "ones": [1] * ns, "random": [rng.getrandbits(1) for _ in range(ns)],
+                   "index0": top + [rng.getrandbits(1) for _ in range(ns - 1)],
+                   "indexmax": [1 - b for b in top] + [rng.getrandbits(1) for _ in range(ns - 1)],
+                   "empty": [], "onezero": [0]}[kind]
+            one(pre + suf, f"state={wbits(state, w)}@{npre} then {kind}")
+            ctx.count(f"structured:engine:{name}:mid-state:{kind}")
+        if not ctx.search_only and ctx.driver_ok:
+            ctx.correspond(f"{name}.structured.bitwise", pairs_b)
+            ctx.correspond(f"{name}.structured.table", pairs_t)
+            ctx.correspond(f"{name}.structured.verify", pairs_v)
+
+
+def structured_front_cases(ctx, CRC8, CRC9, CRC16, CRC32, CrcMasks):
+    """front ends on data constructed such that the RESULT (after inversion / mask / byte order) is a chosen
+    value — 0, all-ones, the mask, single bits, low-byte-only values … — and check() on it"""
+    rng = ctx.rng
+    masks = list(CrcMasks)
+
+    def mval(m):
+        return ETSI_MASKS.get(m.name, m.value)
+
+    # ------------------------------------------------------------------ special data (all front ends)
+    pairs8, pairs16, pairs9, pairs32 = [], [], [], []
+    shapes = []
+    for n in list(range(0, 13)) + [16, 22, 24]:
+        shapes += [bytes(n), b"\xff" * n]
+        if n:
+            k = rng.randrange(8 * n)
+            u = bytearray(n)
+            u[k // 8] = 0x80 >> (k % 8)
+            shapes += [bytes(u), bytes(n - 1) + b"\x01", b"\x80" + bytes(n - 1)]
+    for d in shapes:
+        for m in masks:
+            r = call(CRC16.calculate, d, m)
+            pairs16.append((f"crc16 {hex_str(d)} {m.value}", out_int(r)))
+            ctx.case(("crc16-special", d, m.name))
+            good = (rem_int(bytes_bits(d), 16) ^ 0xFFFF) ^ mval(m)
+            if r != good:
+                ctx.fail("crc16-front", {"component": "crc16", "data": hex_str(d), "mask": m.name}, "CRC16.calculate is not (inverted remainder) xor mask on all-zero / all-ones / one-bit data", expected=good, actual=out_int(r))
+        r = call(CRC32.calculate, d)
+        pairs32.append((f"crc32 {hex_str(d)}", out_int(r)))
+        ctx.case(("crc32-special", d))
+        good = rem_int(bytes_bits(ref_byteswap(d)), 32)
+        if r != good:
+            ctx.fail("crc32-front", {"component": "crc32", "data": hex_str(d)}, "CRC32.calculate is not the remainder over the swapped octets on all-zero / all-ones / one-bit data", expected=good, actual=out_int(r))
+        a = bitarray(bytes_bits(d))
+        r = call(CRC8.calculate, bitarray(a))
+        pairs8.append((f"crc8 0 {barg(a)}", out_int(r)))
+        ctx.case(("crc8-special", d))
+        if r != rem_int(a, 8):
+            ctx.fail("crc8-front", {"component": "crc8", "bits": barg(a)}, "CRC8.calculate is not the plain remainder on all-zero / all-ones / one-bit data", expected=rem_int(a, 8), actual=out_int(r))
+        m = masks[len(d) % len(masks)]
+        for sn in (0, 1, 64, 127):
+            for tag, arg, extra in (("none", None, []), ("b:00000000", bytes(4), [0] * 32), ("i:1", 1, [0] * 31 + [1])):
+                r = call(CRC9.calculate_from_parts, d, sn, m, arg)
+                pairs9.append((f"crc9 {hex_str(d)} {sn} {m.value} {tag}", out_int(r)))
+                ctx.case(("crc9-special", d, sn, m.name, tag))
+                src = bytes_bits(d) + extra + [(sn >> (6 - k)) & 1 for k in range(7)]
+                good = (rem_int(src, 9) ^ 0x1FF) ^ mval(m)
+                if r != good:
+                    ctx.fail("crc9-front", {"component": "crc9", "data": hex_str(d), "serial": sn, "mask": m.name, "crc32": tag},
+                             "CRC9.calculate_from_parts is not (inverted remainder) xor mask on all-zero / all-ones / one-bit data", expected=good, actual=out_int(r))
+        ctx.count("structured:front:special-data")
+
+    # ------------------------------------------------------------------ CRC-8: chosen result
+    for tv in pick(rng, special_values(8, rng), ctx.budget(16, 24)):
+        for _ in range(ctx.budget(2, 6)):
+            n = rng.choice([8, 9, 36, 36, 72, rng.randint(8, 90)])
+            free, where = free_positions(rng, n, 8)
+            m_ = force_rem(base_bits(rng, n), free, 8, tv) or force_rem(base_bits(rng, n), list(range(n - 8, n)), 8, tv)
+            a = bitarray(m_)
+            good = rem_int(m_, 8)
+            r = call(CRC8.calculate, bitarray(a))
+            pairs8.append((f"crc8 0 {barg(a)}", out_int(r)))
+            ctx.case(("crc8-target", barg(a)))
+            ctx.count("structured:front:crc8:target-hit" if good == tv else "structured:front:crc8:target-missed")
+            if r != good:
+                ctx.fail("crc8-front", {"component": "crc8", "bits": barg(a)}, f"CRC8.calculate is not the plain remainder (data constructed for the result {tv:#04x})", expected=good, actual=out_int(r))
+            for v in (good, good ^ (1 << rng.randrange(8)), 0, 255):
+                c = call(CRC8.check, bitarray(a), v)
+                pairs8.append((f"crc8.check 0 {barg(a)} {v}", out_bool(c)))
+                ctx.case(("crc8.check-target", barg(a), v))
+                if c != (v == good):
+                    ctx.fail("crc8-check", {"component": "crc8.check", "bits": barg(a), "value": v}, f"CRC8.check does not accept exactly the computed value (data constructed for the result {tv:#04x})", expected=str(v == good), actual=str(c))
+    # ------------------------------------------------------------------ CRC-CCITT: chosen result, every mask
+    for m in masks:
+        mv = mval(m)
+        tvs = pick(rng, special_values(16, rng, extra=(mv >> 8, mv << 8)), ctx.budget(12, 40), must=(mv & 0xFFFF, (mv ^ 0xFFFF) & 0xFFFF))
+        for tv in tvs:
+            nb = rng.choice([2, 2, 3, 10, 10, 10, 12, rng.randint(2, 30)])
+            free, where = free_positions(rng, 8 * nb, 16)
+            want_rem = (tv ^ 0xFFFF ^ mv) & 0xFFFF
+            bits = force_rem(base_bits(rng, 8 * nb), free, 16, want_rem) or force_rem(base_bits(rng, 8 * nb), list(range(8 * nb - 16, 8 * nb)), 16, want_rem)
+            d = bits_bytes(bits)
+            good = (rem_int(bytes_bits(d), 16) ^ 0xFFFF) ^ mv
+            r = call(CRC16.calculate, d, m)
+            pairs16.append((f"crc16 {hex_str(d)} {m.value}", out_int(r)))
+            ctx.case(("crc16-target", d, m.name))
+            ctx.count("structured:front:crc16:target-hit" if (good & 0xFFFF) == tv else "structured:front:crc16:target-missed")
+            if tv == 0 and good == 0:
+                ctx.count("structured:front:crc16:result-zero")
+            if r != good:
+                ctx.fail("crc16-front", {"component": "crc16", "data": hex_str(d), "mask": m.name}, f"CRC16.calculate is not (inverted remainder) xor mask (data constructed for the result {tv:#06x})", expected=good, actual=out_int(r))
+            for v in (good & 0xFFFF, (good & 0xFFFF) ^ (1 << rng.randrange(16)), 0, 0xFFFF, mv & 0xFFFF):
+                c = call(CRC16.check, d, v, m)
+                pairs16.append((f"crc16.check {hex_str(d)} {v} {m.value}", out_bool(c)))
+                ctx.case(("crc16.check-target", d, v, m.name))
+                if c != (v == good):
+                    ctx.fail("crc16-check", {"component": "crc16.check", "data": hex_str(d), "value": v, "mask": m.name},
+                             f"CRC16.check does not accept exactly the computed value (data constructed for the result {tv:#06x})", expected=str(v == good), actual=str(c))
+    # ------------------------------------------------------------------ CRC-9: chosen result, every mask
+    for m in masks:
+        mv = mval(m)
+        tvs = pick(rng, special_values(9, rng), ctx.budget(9, 24), must=(mv & 0x1FF, (mv ^ 0x1FF) & 0x1FF))
+        for tv in tvs:
+            nb = rng.choice([10, 16, 22, 2, rng.randint(2, 24)])
+            c32kind = rng.choice(["none", "none", "int", "bytes"])
+            sn0 = rng.randrange(128)
+            c32bits = [rng.getrandbits(1) for _ in range(32)] if c32kind != "none" else []
+            src = base_bits(rng, 8 * nb) + c32bits + [(sn0 >> (6 - k)) & 1 for k in range(7)]
+            n = len(src)
+            field = rng.choice(["data", "data", "tail", "crc32" if c32bits else "data", "window"])
+            if field == "data":
+                s0 = rng.randint(0, 8 * nb - 9)
+                free = list(range(s0, s0 + 9))
+            elif field == "tail":  # the serial number and the two bits before it
+                free = list(range(n - 9, n))
+            elif field == "crc32":
+                s0 = 8 * nb + rng.randint(0, 32 - 9)
+                free = list(range(s0, s0 + 9))
+            else:
+                free = free_positions(rng, n, 9, "window")[0]
+            want_rem = (tv ^ 0x1FF ^ mv) & 0x1FF
+            bits = force_rem(src, free, 9, want_rem)
+            d = bits_bytes(bits[: 8 * nb])
+            sn = int("".join(map(str, bits[-7:])), 2)
+            if c32kind == "none":
+                tag, arg, extra = "none", None, []
+            else:
+                cb = bits_bytes(bits[8 * nb: 8 * nb + 32])
+                if c32kind == "int":
+                    arg = int.from_bytes(cb, "big")
+                    tag, extra = f"i:{arg}", (bytes_bits(cb) if arg else [])  # the integer 0 means "no CRC-32"
+                else:
+                    tag, arg, extra = "b:" + cb.hex(), cb, bytes_bits(cb)
+            good = (rem_int(bytes_bits(d) + extra + [(sn >> (6 - k)) & 1 for k in range(7)], 9) ^ 0x1FF) ^ mv
+            r = call(CRC9.calculate_from_parts, d, sn, m, arg)
+            pairs9.append((f"crc9 {hex_str(d)} {sn} {m.value} {tag}", out_int(r)))
+            ctx.case(("crc9-target", d, sn, m.name, tag))
+            ctx.count("structured:front:crc9:target-hit" if (good & 0x1FF) == tv else "structured:front:crc9:target-missed")
+            if r != good:
+                ctx.fail("crc9-front", {"component": "crc9", "data": hex_str(d), "serial": sn, "mask": m.name, "crc32": tag},
+                         f"CRC9.calculate_from_parts is not (inverted remainder of data|crc32|dbsn) xor mask (parts constructed for the result {tv:#05x}, free bits in {field})", expected=good, actual=out_int(r))
+            for v in (good, good ^ (1 << rng.randrange(9)), 0, 511, mv):
+                c = call(CRC9.check, d, sn, v, m, arg)
+                pairs9.append((f"crc9.check {hex_str(d)} {sn} {v} {m.value} {tag}", out_bool(c)))
+                ctx.case(("crc9.check-target", d, sn, v, m.name, tag))
+                exp = "ERR AssertionError" if v > 511 else (v == good)
+                if c != exp:
+                    ctx.fail("crc9-check", {"component": "crc9.check", "data": hex_str(d), "serial": sn, "value": v, "mask": m.name, "crc32": tag},
+                             f"CRC9.check does not accept exactly the computed value (parts constructed for the result {tv:#05x})", expected=str(exp), actual=str(c))
+            # the same target on a raw bit string of a length that is not a multiple of the 9-bit feed
+            nbits = rng.randint(9, 120)
+            raw = force_rem(base_bits(rng, nbits), free_positions(rng, nbits, 9, "window")[0], 9, want_rem)
+            a = bitarray(raw)
+            r = call(CRC9.calculate, bitarray(a), m)
+            pairs9.append((f"crc9.bits 0 {barg(a)} {m.value}", out_int(r)))
+            ctx.case(("crc9.bits-target", barg(a), m.name))
+            good = (rem_int(raw, 9) ^ 0x1FF) ^ mv
+            if r != good:
+                ctx.fail("crc9-front", {"component": "crc9.bits", "bits": barg(a), "mask": m.name}, f"CRC9.calculate is not (inverted remainder) xor mask (bits constructed for the result {tv:#05x})", expected=good, actual=out_int(r))
+    # ------------------------------------------------------------------ CRC-32: chosen result, even and odd lengths
+    for tv in pick(rng, special_values(32, rng), ctx.budget(30, 70)):
+        nb = rng.choice([4, 5, 6, 7, 12, 13, rng.randint(4, 60)])
+        free, where = free_positions(rng, 8 * nb, 32)
+        fed = force_rem(base_bits(rng, 8 * nb), free, 32, tv) or force_rem(base_bits(rng, 8 * nb), list(range(8 * nb - 32, 8 * nb)), 32, tv)
+        d = ref_byteswap(bits_bytes(fed))  # the swap is an involution: these octets are fed in the order `fed`
+        good = rem_int(bytes_bits(ref_byteswap(d)), 32)
+        r = call(CRC32.calculate, d)
+        pairs32.append((f"crc32 {hex_str(d)}", out_int(r)))
+        ctx.case(("crc32-target", d))
+        ctx.count("structured:front:crc32:target-hit" if good == tv else "structured:front:crc32:target-missed")
+        if r != good:
+            ctx.fail("crc32-front", {"component": "crc32", "data": hex_str(d)}, f"CRC32.calculate is not the remainder over the pairwise swapped octets (data constructed for the result {tv:#010x})", expected=good, actual=out_int(r))
+        for v in (good, good ^ (1 << rng.randrange(32)), 0, 0xFFFFFFFF):
+            c = call(CRC32.check, d, v)
+            pairs32.append((f"crc32.check {hex_str(d)} {v}", out_bool(c)))
+            ctx.case(("crc32.check-target", d, v))
+            if c != (v == good):
+                ctx.fail("crc32-check", {"component": "crc32.check", "data": hex_str(d), "value": v}, f"CRC32.check does not accept exactly the computed value (data constructed for the result {tv:#010x})", expected=str(v == good), actual=str(c))
+    if not ctx.search_only and ctx.driver_ok:
+        ctx.correspond("CRC8.structured", pairs8)
+        ctx.correspond("CRC16.structured", pairs16)
+        ctx.correspond("CRC9.structured", pairs9)
+        ctx.correspond("CRC32.structured", pairs32)
+
+
+# ------------------------------------------------------------------------------------------------
+# the register objects used through their documented workflow  init() -> update() 1..n times -> digest()
+def split_message(rng, bits, fw):
+    """cut a message into 1..6 pieces (empty ones allowed); returns (pieces, how)"""
+    n = len(bits)
+    how = rng.choice(["random", "random", "random", "feed-multiples", "feed-off-by-one", "zero-runs", "bitwise", "whole"])
+    if how == "whole" or n == 0:
+        cuts = [] if how == "whole" else sorted(rng.choice([0, 0, n]) for _ in range(rng.randint(0, 3)))
+    elif how == "random":
+        cuts = sorted(rng.randint(0, n) for _ in range(rng.randint(1, 5)))
+    elif how == "feed-multiples":
+        cuts = sorted(min(n, fw * rng.randint(0, n // fw + 1)) for _ in range(rng.randint(1, 5)))
+    elif how == "feed-off-by-one":
+        cuts = sorted(min(n, max(0, fw * rng.randint(0, n // fw + 1) + rng.choice([-1, 1]))) for _ in range(rng.randint(1, 5)))
+    elif how == "bitwise" and n <= 24:
+        cuts = list(range(1, n))
+    else:  # cut exactly around runs of zeros, so that whole pieces are all-zero
+        how = "zero-runs"
+        runs, i = [], 0
+        while i < n:
+            if bits[i] == 0:
+                j = i
+                while j < n and bits[j] == 0:
+                    j += 1
+                runs.append((i, j))
+                i = j
+            else:
+                i += 1
+        cuts = []
+        for a, b in rng.sample(runs, min(len(runs), 2)):
+            cuts += [a, b]
+        cuts = sorted(cuts) or [rng.randint(0, n)]
+    pieces, prev = [], 0
+    for c in cuts:
+        pieces.append(bits[prev:c])
+        prev = c
+    pieces.append(bits[prev:])
+    return pieces, how
+
+
+STREAM_KINDS = ["random", "zero-padding", "trailing-zero-bit", "zero-field", "leading-zeros", "unit", "sparse", "random",
+                "all-zero", "all-ones", "register-zero-then-more", "empty-pieces"]
+
+
+def stream_message(rng, w, fw, kind):
+    """(pieces, class) — messages whose pieces exercise the register in states other than the initial one"""
+    rb = lambda k: [rng.getrandbits(1) for _ in range(k)]  # noqa
+    if kind == "zero-padding":  # payload, then zero pad octets handed over on their own (then perhaps a serial number)
+        pieces = [rb(8 * rng.randint(1, 12)), [0] * (8 * rng.randint(1, 8))]
+        if rng.getrandbits(1):
+            pieces.append(rb(7))
+        return pieces, kind
+    if kind == "trailing-zero-bit":
+        return [rb(rng.randint(1, 40)) + [1], [0]], kind
+    if kind == "zero-field":  # an all-zero field of any width between / after non-zero pieces
+        pieces = [rb(rng.randint(1, 30)) + [1], [0] * rng.choice([1, 2, fw - 1, fw, fw + 1, 2 * fw, w, rng.randint(1, 48)])]
+        for _ in range(rng.randint(0, 3)):
+            pieces.append(rng.choice([rb(rng.randint(1, 20)), [0] * rng.randint(1, 20), []]))
+        return pieces, kind
+    if kind == "leading-zeros":
+        return [[0] * rng.randint(1, 30), rb(rng.randint(1, 40)), [0] * rng.randint(0, 9)], kind
+    if kind == "empty-pieces":
+        pieces = [[], rb(rng.randint(0, 30)), [], [], rb(rng.randint(0, 30)), []]
+        return pieces[rng.randint(0, 2):], kind
+    if kind == "register-zero-then-more":  # a prefix with remainder 0 (register back at its initial content), then more
+        n = max(w, rng.choice([fw * rng.randint(2, 5), w + rng.randint(0, 20)]))
+        pre = force_rem(rb(n), list(range(n - w, n)), w, 0)
+        return [pre, rng.choice([[0] * rng.randint(1, 20), rb(rng.randint(1, 20)), []]), rb(rng.randint(0, 12))], kind
+    n = rng.choice([rng.randint(0, 80), rng.randint(0, 80), fw * rng.randint(1, 12), rng.randint(80, 260)])
+    if kind == "unit":
+        bits = [0] * max(n, 1)
+        bits[rng.randrange(len(bits))] = 1
+    elif kind == "sparse":
+        bits = [0] * max(n, 1)
+        for _ in range(rng.randint(1, 3)):
+            bits[rng.randrange(len(bits))] = 1
+    elif kind == "all-zero":
+        bits = [0] * n
+    elif kind == "all-ones":
+        bits = [1] * n
+    else:
+        bits = rb(n)
+    pieces, how = split_message(rng, bits, fw)
+    return pieces, f"{kind}/{how}"
+
+
+def stream_cases(ctx, crcmod):
+    rng = ctx.rng
+    enums = {7: crcmod.Crc7, 8: crcmod.Crc8, 9: crcmod.Crc9, 16: crcmod.Crc16, 32: crcmod.Crc32}
+    classes = {False: getattr(crcmod, "BitCrcRegister", None), True: getattr(crcmod, "TableBasedBitCrcRegister", None)}
+    for w, en in enums.items():
+        name = CFG_NAMES[w]
+        fw = ref_feed_width(w)
+        for table, cls in classes.items():
+            mt = "t" if table else "b"
+            shared = call(cls, en.ETSI_DMR) if cls is not None else "ERR AttributeError"
+            oneshot = call(crcmod.BitCrcCalculator, en.ETSI_DMR, table)
+            if is_err(shared) or is_err(oneshot):
+                ctx.fail("engine-construct", {"config": name, "table": table}, f"cannot construct the {name} register object: {shared} {oneshot}")
+                continue
+            pairs = []
+            previous = None
+            for i in range(ctx.budget(60, 360)):
+                # every class in turn; 12 classes and 4 x 5 object / scribble variants: all combinations come up
+                pieces, klass = stream_message(rng, w, fw, STREAM_KINDS[i % len(STREAM_KINDS)])
+                whole = [b for p in pieces for b in p]
+                # a quarter on the register inside a calculator, a quarter on a fresh object, the rest on one re-used object
+                sel = (i + i // 12) % 4
+                if sel == 0:
+                    reg, where = call(cls, en.ETSI_DMR), "fresh"
+                elif sel == 1:
+                    reg, where = getattr(oneshot, "_crc_register", None), "calculator"
+                    if reg is None:
+                        reg, where = shared, "shared"
+                else:
+                    reg, where = shared, "shared"
+                mutate = (i + i // 12) % 5 == 3  # the caller scribbles over every object update() hands back
+                held, outs, err = [], [], None
+                r = call(reg.init)
+                if is_err(r):
+                    err = r
+                fed = []
+                for p in pieces:
+                    if err:
+                        break
+                    arg = bitarray(p)
+                    r = call(reg.update, arg)
+                    if is_err(r):
+                        err = r
+                        break
+                    if arg.tolist() != p:
+                        ctx.fail("input-mutated", {"component": "stream", "config": name, "table": table, "pieces": [barg(bitarray(x)) for x in pieces]},
+                                 f"{name} register.update altered the caller's bit buffer", expected=barg(bitarray(p)), actual=barg(arg))
+                    fed += p
+                    outs.append(out_bits(r))
+                    held.append((r, out_bits(r)))
+                    if mutate and isinstance(r, bitarray):
+                        r.invert()
+                        held[-1] = (r, out_bits(r))
+                if not err:
+                    r = call(reg.digest)
+                    if is_err(r):
+                        err = r
+                    else:
+                        outs.append(out_bits(r))
+                        held.append((r, out_bits(r)))
+                if err:
+                    outs.append(err)
+                impl = ",".join(outs)
+                pstr = [barg(bitarray(p)) for p in pieces]
+                pairs.append((f"crc.reg {name} {mt} i " + " ".join("u:" + x for x in pstr) + " d", impl))
+                ctx.case((name, mt, "stream", tuple(pstr), where, mutate), nontrivial=any(whole))
+                ctx.count(f"stream:{name}:{mt}:{klass.split('/')[0]}")
+                later_zero = any(not any(p) and len(p) and any(b for q in pieces[:k] for b in q) for k, p in enumerate(pieces))
+                if later_zero:
+                    ctx.count(f"stream:{name}:{mt}:all-zero-piece-on-non-zero-register")
+                if any(len(p) == 0 for p in pieces):
+                    ctx.count(f"stream:{name}:{mt}:empty-piece")
+                if mutate:
+                    ctx.count(f"stream:{name}:{mt}:returned-objects-mutated")
+                # ---- oracle: every update returns the remainder of what was fed so far, digest the remainder of
+                #      everything, which is also what the one-shot calculator returns for the concatenation
+                exp, acc = [], []
+                for p in pieces:
+                    acc += p
+                    exp.append("".join(str(x) for x in poly_rem(acc, w)))
+                exp.append("".join(str(x) for x in poly_rem(whole, w)))
+                inp = {"component": "stream", "config": name, "table": table, "pieces": pstr, "object": where,
+                       "previous": previous, "mutate_returned": mutate, "class": klass}
+                previous = pstr
+                if impl != ",".join(exp):
+                    k = next((j for j, (a, b) in enumerate(zip(outs, exp)) if a != b), min(len(outs), len(exp)))
+                    what = ("digest()" if k == len(pieces) else f"update() of piece {k + 1}")
+                    ctx.fail("stream-not-remainder", inp,
+                             f"{name} {'table' if table else 'bit-by-bit'} register fed in {len(pieces)} pieces ({klass}): {what} is not (what was fed so far)(x)*x^{w} mod G",
+                             expected=",".join(exp), actual=impl)
+                one = out_bits(call(oneshot.calculate_checksum, bitarray(whole)))
+                if one != exp[-1]:
+                    ctx.fail("table-not-remainder" if table else "bitwise-not-remainder", {"component": "engine", "config": name, "bits": barg(bitarray(whole)), "previous": None},
+                             f"{name}: one-shot value of the concatenated pieces differs from the remainder", expected=exp[-1], actual=one)
+                # ---- the objects handed back earlier still hold what they held
+                for obj, was in held:
+                    if out_bits(obj) != was:
+                        ctx.fail("result-aliased", inp, f"{name}: a bit string returned by update()/digest() changed while the register was used further", expected=was, actual=out_bits(obj))
+                        break
+            # ---- call sequences outside the plain workflow: correspondence only (no init on a fresh object, digest in
+            #      the middle, re-init, little-endian pieces)
+            for _ in range(ctx.budget(10, 60)):
+                reg = call(cls, en.ETSI_DMR)
+                acts, outs = [], []
+                for _ in range(rng.randint(1, 7)):
+                    a = rng.choice(["i", "d", "u", "u", "u", "v"])
+                    if a == "i":
+                        call(reg.init)
+                        acts.append("i")
+                    elif a == "d":
+                        outs.append(out_bits(call(reg.digest)))
+                        acts.append("d")
+                    else:
+                        k = rng.choice([0, 1, fw - 1, fw, fw + 1, 2 * fw, rng.randint(0, 40)])
+                        p = [0] * k if rng.random() < 0.25 else [rng.getrandbits(1) for _ in range(k)]
+                        ba_ = bitarray(p, endian="little" if a == "v" else "big")
+                        outs.append(out_bits(call(reg.update, ba_)))
+                        acts.append(f"{a}:{barg(bitarray(p))}")
+                    if outs and is_err(outs[-1]):
+                        break
+                pairs.append((f"crc.reg {name} {mt} " + " ".join(acts), ",".join(outs) if outs else "="))
+                ctx.case((name, mt, "calls", tuple(acts)))
+                ctx.count(f"stream:{name}:{mt}:free-call-sequences")
+            if not ctx.search_only and ctx.driver_ok:
+                ctx.correspond(f"{name}.register-in-pieces.{'table' if table else 'bitwise'}", pairs)
+
+
+def returned_object_cases(ctx, crcmod, CRC16, CRC9, CRC32, CrcMasks):
+    """hold and scribble over the bit strings the calculators return, then calculate again: the check sums
+    (and the shared lookup tables) must not be reachable through them.  Also: a front end is not disturbed
+    by its singleton's register having been left in mid-message.  Run last (a violation here may leave the
+    process-wide tables corrupted)."""
+    rng = ctx.rng
+    enums = {7: crcmod.Crc7, 8: crcmod.Crc8, 9: crcmod.Crc9, 16: crcmod.Crc16, 32: crcmod.Crc32}
+    for w, en in enums.items():
+        name = CFG_NAMES[w]
+        fw = ref_feed_width(w)
+        for table in (False, True):
+            calc = call(crcmod.BitCrcCalculator, en.ETSI_DMR, table)
+            if is_err(calc):
+                continue
+            for _ in range(ctx.budget(6, 40)):
+                # one full chunk on the zero register: the result is a lookup table entry
+                n = rng.choice([fw, fw, 2 * fw, rng.randint(1, 60)])
+                bits = [rng.getrandbits(1) for _ in range(n)]
+                exp = "".join(str(x) for x in poly_rem(bits, w))
+                r1 = call(calc.calculate_checksum, bitarray(bits))
+                if isinstance(r1, bitarray):
+                    r1.invert()
+                    r1 <<= 1
+                r2 = out_bits(call(calc.calculate_checksum, bitarray(bits)))
+                other = out_bits(call(crcmod.BitCrcCalculator(en.ETSI_DMR, table).calculate_checksum, bitarray(bits)))
+                ctx.case((name, table, "scribble", barg(bitarray(bits))))
+                ctx.count(f"alias:{name}:returned-check-sum-mutated")
+                if r2 != exp or other != exp:
+                    ctx.fail("result-aliased", {"component": "scribble", "config": name, "table": table, "bits": barg(bitarray(bits))},
+                             f"{name}: after the caller changed the bit string calculate_checksum returned, the same message gets another check sum", expected=exp, actual=f"{r2} / new calculator: {other}")
+    for front, fn, good_of in (
+        (CRC16, lambda d: CRC16.calculate(d, CrcMasks.CSBK), lambda d: (rem_int(bytes_bits(d), 16) ^ 0xFFFF) ^ ETSI_MASKS["CSBK"]),
+        (CRC32, lambda d: CRC32.calculate(d), lambda d: rem_int(bytes_bits(ref_byteswap(d)), 32)),
+        (CRC9, lambda d: CRC9.calculate_from_parts(d, 5, CrcMasks.Rate12DataContinuation), lambda d: (rem_int(bytes_bits(d) + [0, 0, 0, 0, 1, 0, 1], 9) ^ 0x1FF) ^ ETSI_MASKS["Rate12DataContinuation"]),
+    ):
+        reg = getattr(getattr(front, "CALC", None), "_crc_register", None)
+        if reg is None:
+            continue
+        for _ in range(ctx.budget(8, 40)):
+            d = bytes(rng.getrandbits(8) for _ in range(rng.randint(0, 14)))
+            call(reg.update, bitarray([rng.getrandbits(1) for _ in range(rng.randint(1, 30))]))  # left in mid-message
+            r = call(fn, d)
+            ctx.case((front.__name__, "dirty-singleton", d))
+            ctx.count("state:front-end-after-partial-feed")
+            if r != good_of(d):
+                ctx.fail("singleton-state", {"component": "dirty-singleton", "front": front.__name__, "data": hex_str(d)},
+                         f"{front.__name__}: result depends on what the singleton's register was fed before", expected=good_of(d), actual=out_int(r))
+
+
 CORPUS = [
     # (config width, bits): lengths around the feed widths and the CRC-9 block sizes
     (9, "1" * 87), (9, "1" * 135), (9, "1" * 183), (9, "0" * 8 + "1"), (7, "1" * 8), (16, "1" * 9), (32, "1" * 33), (8, "1"),
@@ -572,12 +1244,23 @@ def run(ctx):
         "widths 1..129. Front ends: random byte/bit strings (CRC-16 with all 11 masks; CRC-9 with no / int / bytes / zero CRC-32 and "
         "all 128 serial numbers; CRC-32 even and odd lengths) against (inverted) remainder xor mask; check() on right / wrong / "
         "out-of-range values; CCITT: all 1- and 2-bit and sampled (thorough all) 3-bit differences on 80-bit messages and on 96-bit "
-        "code words. A case is non-trivial unless the message is empty or all-zero; distinct = distinct (component, input)."
+        "code words. Structured algebraic inputs (the CRC is affine in the message: >= w free bits — the last / first w, a random window, "
+        "scattered positions — are solved for over GF(2) and the result re-checked by the reference division): messages whose remainder, "
+        "and front-end data / parts whose RESULT after inversion, mask and byte order, is a chosen value (0, all-ones, every single bit, "
+        "the mask, its complement, low-byte-only values …) for every engine, front end and mask, with calculate, verify_checksum and check() "
+        "on the computed / a flipped / 0 / all-ones value; multiples of the generator; prefixes that bring the register to a chosen state "
+        "(0, all-ones, table index 0 / last) followed by zero / one / random bits; all-zero, all-ones and one-bit data for every front end. "
+        "Register objects through init() -> update() 1..n -> digest(): messages (random, unit, sparse, payload + zero pad octets, lone "
+        "trailing 0 bit, zero fields, leading zeros, a prefix with remainder 0) cut into 1..6+ pieces (random cuts, at / next to multiples "
+        "of the feed width, around runs of zeros, bit by bit, empty pieces) on fresh, re-used and calculator-owned registers of both kinds "
+        "and all five configurations: every update() return value and the digest against the reference division and the one-shot value; "
+        "returned bit strings held, scribbled over by the caller and re-verified. "
+        "A case is non-trivial unless the message is empty or all-zero; distinct = distinct (component, input)."
     )
     ctx.trusted_base += [
         "Lean 4.33 kernel; Mathlib (Polynomial, ZMod 2) for the statement of 'remainder'",
         "tools/extract_crc.py (the five BitCrcConfiguration values after __post_init__, the configuration/register kind of the four CALC singletons, all CrcMasks)",
-        "hand-written model of crc.py / crc8.py / crc9.py / crc16.py / crc32.py (Model/Crc.lean, Model/CrcFront.lean) tied to the code by this run's correspondence",
+        "hand-written model of crc.py / crc8.py / crc9.py / crc16.py / crc32.py (Model/Crc.lean, Model/CrcFront.lean; register objects fed in pieces: Model/CrcStream.lean) tied to the code by this run's correspondence",
         "bitarray (ba2int/int2ba/shift/xor/lexicographic >=) trusted as the substrate; the oracle's reference is an independent list-based long division in this file",
     ]
     ctx.assumptions += [
@@ -592,6 +1275,10 @@ def run(ctx):
     front_cases(ctx, CRC8, CRC9, CRC16, CRC32, CrcMasks)
     detection_cases(ctx, CRC8, CRC9, CRC16, CRC32, CrcMasks)
     singleton_state_cases(ctx, CRC8, CRC9, CRC16, CRC32, CrcMasks)
+    structured_engine_cases(ctx, crcmod)
+    structured_front_cases(ctx, CRC8, CRC9, CRC16, CRC32, CrcMasks)
+    stream_cases(ctx, crcmod)
+    returned_object_cases(ctx, crcmod, CRC16, CRC9, CRC32, CrcMasks)
 
 
 # ------------------------------------------------------------------------------------------------
